@@ -151,6 +151,13 @@ type Sim struct {
 	Sched   int
 	prio    map[string]int
 	prioLow int
+	// prioChange: one change point per this many steps on average
+	prioChange int
+
+	// StallPermille > 0: at each scheduling decision, with this probability, one parked goroutine is frozen
+	// where it stands for 5..60 decisions while everything else proceeds (a preempted thread, a slow node)
+	StallPermille int
+	stalled       map[string]int
 
 	// AllowLeak: goroutines of the code under test that can never finish
 	// (a call with an uncancellable context on a dead connection) are
@@ -290,6 +297,7 @@ func (s *Sim) fill(res *Result) {
 // Choose returns a value in [0,n).  It may be called by the driver, by setup
 // code, or by a task that is the only one drawing in the current macro-step.
 func (s *Sim) Choose(tag string, n int) int {
+	heartbeat.Add(1) // scenarios that never call Drive (store histories) make progress by drawing
 	s.chMu.Lock()
 	defer s.chMu.Unlock()
 	return s.ch.choose(tag, n)
@@ -711,6 +719,43 @@ func (s *Sim) sleepDriver(d time.Duration) {
 	raceMaskEnd()
 }
 
+// applyStalls freezes parked goroutines for a while: their release actions are withheld as long as something else can run.
+func (s *Sim) applyStalls(acts []Action) []Action {
+	if s.stalled == nil {
+		s.stalled = map[string]int{}
+	}
+	if s.Choose("stall", 1000) < s.StallPermille {
+		var rel []int
+		for i, a := range acts {
+			if a.Kind == "release" && s.stalled[a.ID] <= s.step {
+				rel = append(rel, i)
+			}
+		}
+		if len(rel) > 0 {
+			a := acts[rel[s.Choose("stall.who", len(rel))]]
+			n := 5 + s.Choose("stall.len", 56)
+			s.stalled[a.ID] = s.step + n
+			s.Fault("goroutine_stalled_mid_operation")
+			s.Event("stall %s for %d decisions", a.ID, n)
+		}
+	}
+	var out []Action
+	live := 0
+	for _, a := range acts {
+		if a.Kind == "release" && s.stalled[a.ID] > s.step {
+			continue
+		}
+		out = append(out, a)
+		if a.Kind != "advance" && a.Kind != "fault" {
+			live++
+		}
+	}
+	if live == 0 {
+		return acts // only stalled goroutines can run: the stall is over
+	}
+	return out
+}
+
 // Scheduling policies.  Uniform weighted choice explores short races well but
 // almost never lets one task run a long stretch while another stays parked
 // at one point; the priority policy (after PCT, Burckhardt et al. 2010) gives
@@ -725,6 +770,8 @@ func (s *Sim) pickByPriority(acts []Action) int {
 	if s.prio == nil {
 		s.prio = map[string]int{}
 		s.prioLow = 0
+		// how often the running entity is demoted varies per run: few long uninterrupted stretches or many short ones
+		s.prioChange = []int{5, 10, 25}[s.Choose("pct.rate", 3)]
 	}
 	// faults and spontaneous time steps keep a small uniform share
 	var special []int
@@ -755,7 +802,7 @@ func (s *Sim) pickByPriority(acts []Action) int {
 		return special[s.Choose("pct.which", len(special))]
 	}
 	// change point: the running entity drops below everything else
-	if s.Choose("pct.change", 25) == 0 {
+	if s.Choose("pct.change", s.prioChange) == 0 {
 		s.prioLow--
 		s.prio[acts[best].Kind[:1]+":"+acts[best].ID] = s.prioLow
 	}
@@ -833,6 +880,9 @@ func (s *Sim) Drive(o DriveOpts) DriveResult {
 			continue
 		}
 		idle = 0
+		if s.StallPermille > 0 && !o.FIFO {
+			acts = s.applyStalls(acts)
+		}
 		total := 0
 		for _, a := range acts {
 			total += a.Weight
